@@ -1,4 +1,5 @@
 import B2Z.Proofs.Arith
+import B2Z.Gen.Partitions
 /-! # C11 — work partitions are an exact, chunk-aligned cover of the records
 
 Model: `B2Z.genPartitions` (`VcfZarrPartition.generate_partitions`) and
@@ -189,6 +190,55 @@ theorem C11_count_exact (n c p : Nat) (m : Option Nat) :
     (genPartitions n c p m).length = min p (numChunks n c m) ∧
     (chunkAlignedSlices n c p m).length = min p (numChunks n c m) := by
   rw [chunkAlignedSlices_eq]; exact ⟨genPartitions_length n c p m, genPartitions_length n c p m⟩
+
+/-! ## Tie to the current source by translation (`Gen/Partitions.lean`, regenerated on every run)
+
+`harness/extract.py` reads `generate_partitions` (vcz.py) and `chunk_aligned_slices` (core.py) and
+emits the chunk count, its cap, the number of sections and the `(start, stop)` expressions of the
+loop body.  The lemmas below re-prove, against whatever the source says now, that these are the
+pieces of `genPartitions` / `chunkAlignedSlices`; `np.array_split` itself stays an assumption
+(`splitStart`, validated by the correspondence). -/
+
+/-- the pieces regenerated from the current source are the pieces of the model -/
+theorem C11_bridge_pieces :
+    (∀ n c, Gen.encNumChunks n c = ceilDiv n c) ∧ (∀ n c, Gen.slNumChunks n c = ceilDiv n c) ∧
+    (∀ k m, Gen.encCap k m = min k m) ∧ (∀ k m, Gen.slCap k m = min k m) ∧
+    (∀ p k, Gen.encSplits p k = min p k) ∧ (∀ p k, Gen.slSplits p k = min p k) ∧
+    (∀ f l c n, Gen.encStart f l c n = f * c) ∧ (∀ f l c n, Gen.slStart f l c n = f * c) ∧
+    (∀ f l c n, Gen.encStop f l c n = min ((l + 1) * c) n) ∧
+    (∀ f l c n, Gen.slStop f l c n = min ((l + 1) * c) n) := by
+  refine ⟨?_, ?_, ?_, ?_, ?_, ?_, ?_, ?_, ?_, ?_⟩ <;> intros <;>
+    first
+      | rfl
+      | (simp only [Gen.encNumChunks, Gen.slNumChunks, Gen.encCap, Gen.slCap, Gen.encSplits, Gen.slSplits,
+          Gen.encStart, Gen.slStart, Gen.encStop, Gen.slStop, ceilDiv]; grind)
+
+/-- the model's partition list, written with the regenerated pieces only: `first`/`last` are the
+    first and last chunk index of section `i` of `np.array_split` -/
+theorem C11_bridge_encode (n c p : Nat) (m : Option Nat) (i : Nat)
+    (hn : 0 < n) (hc : 0 < c) (hp : 0 < p) (hm : ∀ x, m = some x → 0 < x)
+    (h : i < (genPartitions n c p m).length) :
+    let k := match m with
+      | none => Gen.encNumChunks n c
+      | some x => Gen.encCap (Gen.encNumChunks n c) x
+    let s := Gen.encSplits p k
+    (genPartitions n c p m)[i] =
+      (Gen.encStart (splitStart k s i) (splitStart k s (i+1) - 1) c n,
+       Gen.encStop (splitStart k s i) (splitStart k s (i+1) - 1) c n) := by
+  obtain ⟨b1, _, b3, _, b5, _, b7, _, b9, _⟩ := C11_bridge_pieces
+  have hk : (match m with
+      | none => Gen.encNumChunks n c
+      | some x => Gen.encCap (Gen.encNumChunks n c) x) = numChunks n c m := by
+    cases m <;> simp [numChunks, b1, b3]
+  simp only [hk, b5, b7, b9]
+  rw [genPartitions_get]
+  have hlen := genPartitions_length n c p m
+  have hkpos := numChunks_pos n c m hn hc hm
+  have hs : 0 < min p (numChunks n c m) := by omega
+  have := splitStart_lt_succ (numChunks n c m) (min p (numChunks n c m)) i hs (Nat.min_le_right _ _)
+  have e : splitStart (numChunks n c m) (min p (numChunks n c m)) (i+1) - 1 + 1 =
+      splitStart (numChunks n c m) (min p (numChunks n c m)) (i+1) := by omega
+  rw [e]
 
 /-- non-vacuity: 10 records, chunk size 3, 3 partitions asked → [(0,6),(6,9),(9,10)] -/
 example : genPartitions 10 3 3 none = [(0, 6), (6, 9), (9, 10)] := by decide
